@@ -100,6 +100,10 @@ def gen_case(prop: str, seed: int, tier: str, index: int, classes: List[str]) ->
     cfg = {"class": cls, "net": {"lat_min": 0.001, "lat_max": 0.004}, "loop": loop_cfg, "tables": tables, "end": round(end + 5, 3),
            "snapshot": snaps[rng.randrange(len(snaps))].split("/")[-1],
            "suspend_p": rng.choice([0.0, 0.0, 0.1, 0.3]), "suspend_max": rng.choice([0.3, 1.0, 3.0])}
+    if rng.random() < 0.3:
+        from sim.system import draw_firmware
+
+        cfg["firmware"] = draw_firmware(rng)
     # tuning knobs (class constants of GeckoConstants), randomised per run so that nothing silently depends on the shipped value:
     # the pause between handshake steps (shipped 0: a non-zero pause widens every window inside the handshake) ...
     cfg["consts"] = {"CONNECTION_STEP_PAUSE_IN_SECONDS": rng.choice([0, 0, 0, 0.3, 1.0])}
